@@ -29,6 +29,7 @@ type ModelOpts struct {
 	ReservedRnd           bool
 	SmallUnits            bool // single packet units mostly
 	NoPtrOnlyFirstChunk   bool // avoid first chunks that hold nothing but pointer_field(+filler) on PAT/PMT PIDs
+	RichAF                bool // adaptation fields with any optional part on any packet of PES units (never the discontinuity flag)
 }
 
 var siPIDs = []struct {
@@ -318,6 +319,17 @@ func RandomModel(r *rand.Rand, o ModelOpts) *Model {
 					af.TransportPrivateDataLength = 8
 				}
 				u.Plan[0].AF = af
+			}
+			if o.RichAF {
+				// any packet of the unit may carry adaptation field content when its chunk leaves room for it
+				for k := range u.Plan {
+					if u.Plan[k].AF == nil && u.Plan[k].N <= 150 && r.IntN(3) == 0 {
+						af := RandomAF(r, 183-u.Plan[k].N, -1, -1)
+						af.DiscontinuityIndicator = false
+						af.StuffingLength = 0
+						u.Plan[k].AF = af
+					}
+				}
 			}
 			m.PerPID[p] = append(m.PerPID[p], u)
 		}
